@@ -237,7 +237,7 @@ func cmdCheck(args []string) int {
 	// only what is still undecided then is reported.
 	var retry []int
 	for i, r := range results {
-		if r.Status == "unknown" && !r.Obl.ExpSat && r.Obl.Static == "" {
+		if r.Status == "unknown" && !r.Obl.ExpSat && r.Obl.Static == "" && !v.isKnownFinding(r.Obl.Name) {
 			retry = append(retry, i)
 		}
 	}
